@@ -290,7 +290,48 @@ def kleeneDual (G : Grammar (Ext × Ext)) (bits : Nat) : Nat → Val (Ext × Ext
     let y := F dualSR G (kleeneDual G bits n)
     if bits == 0 then y else y.map (fun t => t.map (fun l => l.map (fun c => (truncDown bits c.1, truncDown bits c.2))))
 
+/-! ### checking a concrete derivation with assignments (C04: what `viterbi` returns) -/
+
+inductive ADeriv where
+  | mk (rule : Nat) (asst : List Nat) (children : List ADeriv)   -- asst: value per node position
+deriving Repr, Inhabited
+
+/-- well-formedness and weight of a derivation rooted at nonterminal `X` whose external nodes must
+take the values `extVals`: the rule belongs to `X`; every node has a value in its domain; external
+nodes agree with the parent; exactly one child per nonterminal edge (in order), each well formed at
+the induced values; weight = product of terminal weights and children's weights. -/
+def checkDeriv (S : SR K) (G : Grammar K) : Nat → ADeriv → Nat → List Nat → Option K
+  | 0, _, _, _ => none
+  | fuel+1, .mk ri asst cs, X, extVals =>
+    match G.rules[ri]? with
+    | none => none
+    | some r =>
+      if r.lhs != X then none
+      else if asst.length != r.nodes.length then none
+      else if !((asst.zip r.nodes).all (fun (v, l) => decide (v < G.dom l))) then none
+      else if r.ext.map (fun v => asst[v]?.getD 0) != extVals then none
+      else
+        let step := fun (acc : Option (K × List ADeriv)) (e : Nat × List Nat) =>
+          match acc with
+          | none => none
+          | some (w, rest) =>
+            let idx := e.2.map (fun v => asst[v]?.getD 0)
+            if e.1 < G.T then some (S.mul w (edgeWeight S G [] e.1 idx), rest)
+            else match rest with
+              | c :: rest' => (checkDeriv S G fuel c (e.1 - G.T) idx).map (fun wc => (S.mul w wc, rest'))
+              | [] => none
+        match r.edges.foldl step (some (S.one, cs)) with
+        | some (w, []) => some w
+        | _ => none
+
+partial def parseADeriv : Parser ADeriv := do
+  let r ← Tok.nat; let a ← Tok.list Tok.nat; let cs ← Tok.list parseADeriv
+  pure (.mk r a cs)
+
 def handle : List String → Option (Except String String)
+  | "C04.check" :: rest => some do
+      let (G, d, a) ← Tok.run (do let g ← parseGrammar Tok.ext; let d ← parseADeriv; let a ← Tok.list Tok.nat; pure (g, d, a)) rest
+      pure (showOpt toString (checkDeriv vitSR G 64 d G.start a))
   | "C03.dual" :: rest => some do
       let (G, entries, n, bits) ← Tok.run (do
         let g ← parseGrammar Tok.ext
